@@ -46,11 +46,19 @@ def miri_run(c, args, flags, target=None, timeout=None):
     env = dict(miri_env(c), MIRIFLAGS=' '.join(flags))
     feats = ['--features', 'failhooks'] if args and args[0] == 'big32-fail' else []
     cmd = ['cargo', '+nightly', 'miri', 'run', '--offline', '--quiet'] + feats + (['--target', target] if target else []) + ['--'] + args
-    try:
-        p = subprocess.run(cmd, cwd=crate, env=env, stdout=subprocess.PIPE, stderr=subprocess.STDOUT, text=True, timeout=timeout)
+    for attempt in (1, 2):
+        try:
+            p = subprocess.run(cmd, cwd=crate, env=env, stdout=subprocess.PIPE, stderr=subprocess.STDOUT, text=True, timeout=timeout)
+        except subprocess.TimeoutExpired as e:
+            return 124, (e.stdout or '') + '\n<timeout>'
+        # a failure of cargo itself (manifest, lock, build) is a harness error, never a verdict
+        if p.returncode != 0 and ('cargo metadata' in p.stdout or 'failed to parse manifest' in p.stdout or 'could not compile' in p.stdout):
+            if attempt == 1:
+                time.sleep(1.0)
+                continue
+            print(p.stdout[-3000:])
+            c.die('cargo failed while building/running mirisim (harness error)')
         return p.returncode, p.stdout
-    except subprocess.TimeoutExpired as e:
-        return 124, (e.stdout or '') + '\n<timeout>'
 
 
 def setup(c):
